@@ -273,18 +273,26 @@ def m1_cmdseq(ctx: Any, prog: Program) -> None:
         for nme in names:
             reach.setdefault(nme, set()).add(fld)
     wlocals = assigned_locals(wf)
+    # the command being written: the target of the innermost loop that holds the ST_COMMAND.pack call
+    cmd_var = 'cmd'
+    p_ = mod.parents.get(packs[0])
+    while p_ is not None and p_ is not wf:
+        if isinstance(p_, ast.For) and isinstance(p_.target, ast.Name):
+            cmd_var = p_.target.id
+            break
+        p_ = mod.parents.get(p_)
     # control dependence on the writer side: locals assigned under `if <test on cmd.X>`
     wctl: Dict[str, Set[str]] = {}
     for n in ast.walk(wf):
         if isinstance(n, ast.If):
-            tf = {x.attr for x in ast.walk(n.test) if isinstance(x, ast.Attribute) and dotted(x.value) == 'cmd'}
+            tf = {x.attr for x in ast.walk(n.test) if isinstance(x, ast.Attribute) and dotted(x.value) == cmd_var}
             for s in ast.walk(n):
                 if isinstance(s, ast.Assign) and isinstance(s.targets[0], ast.Name):
                     wctl.setdefault(s.targets[0].id, set()).update(tf)
     # locals unpacked from a helper call on command fields (`special, exe = _encode_exe(cmd.exe)`) derive from those fields
     for n in ast.walk(wf):
         if isinstance(n, ast.Assign) and isinstance(n.value, ast.Call):
-            tf = {x.attr for a_ in n.value.args for x in ast.walk(a_) if isinstance(x, ast.Attribute) and dotted(x.value) == 'cmd'}
+            tf = {x.attr for a_ in n.value.args for x in ast.walk(a_) if isinstance(x, ast.Attribute) and dotted(x.value) == cmd_var}
             if tf:
                 for t_ in n.targets:
                     for e_ in ([t_] if isinstance(t_, ast.Name) else (t_.elts if isinstance(t_, (ast.Tuple, ast.List)) else [])):
@@ -422,7 +430,7 @@ def m1_cmdseq(ctx: Any, prog: Program) -> None:
         ctx.shape('C20.M1', part, mod, sc, 'strip_cstring cuts at the first NUL through an enumerated idiom (in + index, find with a -1 test, partition/split)', func='strip_cstring', text='cmdseq full-width field read whole')
     whole = [r for r in ast.walk(sc) if isinstance(r, ast.Return) and r.value is not None]
     ctx.check('C20.M1', bool(whole), mod, sc, 'strip_cstring returns a value', func='strip_cstring', text='strip_cstring returns')
-    raw = [a for a in args if isinstance(a, ast.Attribute) and dotted(a.value) == 'cmd' and a.attr in ('exe', 'args', 'ensure_file')]
+    raw = [a for a in args if isinstance(a, ast.Attribute) and dotted(a.value) == cmd_var and a.attr in ('exe', 'args', 'ensure_file')]
     ctx.check('C20.M1', not raw, mod, packs[0], 'string fields must go through pad_string', func='write', text='cmdseq strings padded')
 
 
@@ -722,7 +730,10 @@ def m1_m4_scenes_image(ctx: Any, prog: Program) -> None:
         rsum = [s for s in rloop[0].body if isinstance(s, ast.If) and 'version == 3' in U(s.test)]
         wsum = [s for s in wloop[0].body if isinstance(s, ast.If) and 'version == 3' in U(s.test)]
         rs, ws = norm(r.block(rsum)), norm(w.block(wsum))
-        ctx.check('C20.M1', rs == ws and rs != '', mod, wsum[0], f'summary record v{ver}: reader `{rs}`, writer `{ws}`', func='save_scenes_image_sync', text=f'scenes.image summary v{ver}')
+        if '[' in rs or '[' in ws:
+            ctx.shape('C20.M1', False, mod, wsum[0], f'summary record v{ver}: a gate is not decided by the configuration (reader `{rs}`, writer `{ws}`)', func='save_scenes_image_sync', text=f'scenes.image summary v{ver}')
+        else:
+            ctx.check('C20.M1', rs == ws and rs != '', mod, wsum[0], f'summary record v{ver}: reader `{rs}`, writer `{ws}`', func='save_scenes_image_sync', text=f'scenes.image summary v{ver}')
     ok = "struct.pack('<Iii', entry.duration_ms, entry.last_speak_ms, len(entry.sounds))" in ss and "struct.pack('<Ii', entry.duration_ms, len(entry.sounds))" in ss and '[duration, last_speak, sound_count] = binformat.struct_read' in ps \
         and '[duration, sound_count] = binformat.struct_read' in ps and 'Entry(' in ps and "duration, last_speak, sounds" in ps.replace('\n', ' ').replace('    ', '')
     ctx.shape('C20.M1', ok, mod, sf, 'summary fields: duration, last speak (v3), sound count; constructor receives them in that order', func='save_scenes_image_sync', text='scenes.image summary linkage')
@@ -822,10 +833,26 @@ def reader_keywords(mod: Any, fn: ast.AST, fold: Folder) -> Tuple[Set[str], Set[
     """keywords compared against by a parse_text function, and those whose handler raises NotImplementedError"""
     kws: Set[str] = set()
     unimpl: Set[str] = set()
+    # locals holding token text: the second target of a loop over the tokenizer, results of tokenizer.expect()/next-token calls, and anything
+    # computed from those by casefold()/lower()
+    tok_names: Set[str] = {'folded', 'tok_val', 'abs_kind'}
+    for _ in range(2):
+        for a in ast.walk(fn):
+            if isinstance(a, ast.For) and isinstance(a.target, ast.Tuple) and len(a.target.elts) == 2 and isinstance(a.target.elts[1], ast.Name) and 'tok' in U(a.iter).lower():
+                tok_names.add(a.target.elts[1].id)
+            if isinstance(a, ast.Assign) and isinstance(a.value, ast.Call) and isinstance(a.value.func, ast.Attribute):
+                v_ = a.value
+                if v_.func.attr in ('casefold', 'lower') and isinstance(v_.func.value, ast.Name) and v_.func.value.id in tok_names:
+                    tok_names.update(t.id for t in a.targets if isinstance(t, ast.Name))
+                if v_.func.attr == 'expect' or (v_.func.attr == 'casefold' and isinstance(v_.func.value, ast.Call) and isinstance(v_.func.value.func, ast.Attribute) and v_.func.value.func.attr == 'expect'):
+                    tok_names.update(t.id for t in a.targets if isinstance(t, ast.Name))
+            if isinstance(a, ast.Assign) and isinstance(a.targets[0], ast.Tuple) and len(a.targets[0].elts) == 2 and isinstance(a.value, ast.Call) and 'tok' in U(a.value.func).lower() \
+                    and isinstance(a.targets[0].elts[1], ast.Name):
+                tok_names.add(a.targets[0].elts[1].id)
     for n in ast.walk(fn):
-        if isinstance(n, ast.Compare) and len(n.ops) == 1 and isinstance(n.ops[0], ast.Eq) and isinstance(n.comparators[0], ast.Constant) and isinstance(n.comparators[0].value, str) and dotted(n.left) in ('folded', 'tok_val', 'abs_kind'):
+        if isinstance(n, ast.Compare) and len(n.ops) == 1 and isinstance(n.ops[0], ast.Eq) and isinstance(n.comparators[0], ast.Constant) and isinstance(n.comparators[0].value, str) and dotted(n.left) in tok_names:
             kws.add(n.comparators[0].value)
-        if isinstance(n, ast.Compare) and isinstance(n.ops[0], ast.In) and dotted(n.left) == 'folded' and isinstance(n.comparators[0], ast.Name):
+        if isinstance(n, ast.Compare) and isinstance(n.ops[0], ast.In) and dotted(n.left) in tok_names and isinstance(n.comparators[0], ast.Name):
             try:
                 tbl = fold.global_(n.comparators[0].id)
                 kws |= {k for k in tbl if isinstance(k, str)}
@@ -1022,10 +1049,18 @@ def m2_vmt(ctx: Any, prog: Program) -> None:
     ctx.check('C20.M2', bool(escapes) == decodes, mod, escapes[0] if escapes else exp, f'Material.parse tokenises with allow_escapes={decodes} but Material.export {"escapes text (escape_text / Keyvalues.serialise)" if escapes else "writes text verbatim"}: '
               'backslashes in block values change on every save/load cycle', func='Material.export', text='VMT escape configuration agrees')
     src = U(exp)
-    for what in ('name', 'value', 'shader'):
-        guards = [n for n in ast.walk(exp) if isinstance(n, ast.If) and 'BARE_DISALLOWED' in U(n.test) and what in {x.id for x in ast.walk(n.test) if isinstance(x, ast.Name)}
-                  and any(isinstance(b, ast.Assign) and dotted(b.targets[0]) == what and isinstance(b.value, ast.JoinedStr) and U(b.value).startswith("f'\"") for b in n.body)]
-        ctx.check('C20.M2', bool(guards), mod, exp, f'the {what} is written bare with no quoting guard: it must be quoted when it contains a delimiter character (BARE_DISALLOWED)', func='Material.export', text=f'VMT {what} quoted when needed')
+    # three strings are written bare (shader, parameter name, parameter value); each needs a guard that re-binds it to a quoted f-string when it
+    # contains a delimiter.  The guards are counted by shape: `if <test on X with BARE_DISALLOWED>: X = f'"{...}"'`, whatever X is called.
+    q_guards = []
+    for n in ast.walk(exp):
+        if isinstance(n, ast.If) and 'BARE_DISALLOWED' in U(n.test):
+            tested = {x.id for x in ast.walk(n.test) if isinstance(x, ast.Name)} - {'BARE_DISALLOWED'}
+            for b in n.body:
+                if isinstance(b, ast.Assign) and isinstance(b.targets[0], ast.Name) and b.targets[0].id in tested and isinstance(b.value, ast.JoinedStr) and str(U(b.value)).startswith("f'\""):
+                    q_guards.append(n)
+    for i_w, what in enumerate(('shader', 'name', 'value')):
+        ctx.check('C20.M2', len(q_guards) > i_w, mod, q_guards[i_w] if len(q_guards) > i_w else exp, f'Material.export has {len(q_guards)} quoting guard(s) for the three strings it writes bare (shader, parameter name, parameter value): '
+                  'each must be quoted when it contains a delimiter character (BARE_DISALLOWED)', func='Material.export', text=f'VMT {what} quoted when needed')
     ok = "param_name.casefold() == 'proxies'" in U(par) and "'\\n\\tProxies\\n\\t\\t{\\n'" in src
     ctx.shape('C20.M2', ok, mod, exp, 'Proxies block keyword', func='Material.export', text='VMT proxies keyword')
     for attr in ('proxies', 'blocks'):
@@ -1058,7 +1093,8 @@ def m2_particles(ctx: Any, prog: Program) -> None:
     mod = prog.module('particles')
     par, exp = mod.func('Particle.parse'), mod.func('Particle.export')
     psrc, esrc = U(par), U(exp)
-    sections_r = re.findall(r"generic_attr\(elem, '(\w+)'\)", psrc)
+    sections_r = [c.args[1].value for c in ast.walk(par) if isinstance(c, ast.Call) and dotted(c.func) == 'generic_attr' and len(c.args) == 2 and isinstance(c.args[1], ast.Constant) and isinstance(c.args[1].value, str)]
+    sections_r = sorted(sections_r, key=lambda v_: next(c.lineno * 1000 + c.col_offset for c in ast.walk(par) if isinstance(c, ast.Call) and dotted(c.func) == 'generic_attr' and len(c.args) == 2 and isinstance(c.args[1], ast.Constant) and c.args[1].value == v_))
     lst = [n for n in ast.walk(exp) if isinstance(n, ast.List) and all(isinstance(e, ast.Constant) and isinstance(e.value, str) for e in n.elts) and len(n.elts) >= 4]
     sections_w = [e.value for e in lst[0].elts] if lst else []
     ctx.check('C20.M2', sections_r == sections_w and len(sections_r) == 6, mod, exp, f'operator sections: parse reads {sections_r}, export writes {sections_w}', func='Particle.export', text='particle sections')
